@@ -518,7 +518,17 @@ def _gen_case(rng, kind, tier):
     raw_cells = [unreduce(rng, c, big=True) for c in cells] if unred else cells
     traj_cells = [unreduce(rng, c, big=False) for c in cells] if unred else cells
     xyz = [gen_positions(rng, cells[f], n_atoms, spread, special) for f in range(n_frames)]
-    pairs = gen_pairs(rng, n_atoms, rng.randint(1, 6))
+    # degenerate separations in EVERY case: the last atom is an exact periodic image of atom 0 (cell of its frame),
+    # the one before it coincides with atom 1; pairs (i,i), (0,last), (1,last-1) are always asked for
+    n_atoms += 2
+    for f in range(n_frames):
+        n = [rng.randint(-max(1, spread), max(1, spread)) for _ in range(3)]
+        if n == [0, 0, 0]:
+            n = [1, 0, -1]
+        xyz[f].append(list(xyz[f][1]))
+        xyz[f].append([xyz[f][0][j] + sum(n[k] * cells[f][k][j] for k in range(3)) for j in range(3)])
+    i0 = rng.randrange(n_atoms)
+    pairs = gen_pairs(rng, n_atoms, rng.randint(1, 5)) + [[i0, i0], [0, n_atoms - 1], [1, n_atoms - 2]]
     times = [[rng.randrange(n_frames), rng.randrange(n_frames)] for _ in range(rng.randint(1, 3))]
     g1 = sorted(rng.sample(range(n_atoms), rng.randint(1, max(1, n_atoms // 2))))
     g2 = sorted(rng.sample(range(n_atoms), rng.randint(1, max(1, n_atoms // 2))))
@@ -827,6 +837,23 @@ def run_cases(ctx, cases, oracle_only=False):
             if "err" in out:
                 ctx.fail("%s raised %s on valid input" % (api, out["err"]), replay_case(c, li), observed=out,
                          expected="a result", tags={"api": api, "kind": "raises"})
+                continue
+            # a non-finite number is a property failure of its own (never fed into exact arithmetic)
+            nonfinite = [k for k, x in enumerate(out["data"]) if not (isinstance(x, (int, float)) and math.isfinite(x))]
+            if nonfinite:
+                k = nonfinite[0]
+                width = 3 if api == "disp" else 1
+                prs = call.get("pairs", [])
+                where = None
+                if api != "fcc" and prs:
+                    e = k // width
+                    where = {"row": e // len(prs), "pair": prs[e % len(prs)]}
+                ctx.fail("reported distance/displacement is not a finite number", replay_case(c, li),
+                         observed={"value": repr(out["data"][k]), "entry": where, "n_nonfinite": len(nonfinite)},
+                         expected="a finite minimum-image value",
+                         tags={"api": api, "opt": opt, "periodic": periodic, "cell": c["kind"], "kind": "non_finite"})
+                ctx.count({"c": case_id(c), "api": api, "nonfinite": True, "x": c["xyz"][0][0]}, nontrivial=True,
+                          bucket="%s/non_finite" % api)
                 continue
             pairs = call.get("pairs", [])
             if api != "fcc":
